@@ -906,8 +906,64 @@ def _rekey_probes(ctx):
                 shutil.rmtree(tmp, ignore_errors=True)
 
 
+def _reuse_probes(ctx):
+    """ONE Editor instance used for several blocks on the same files: a block that raised, or a file restored behind the
+    editor's back, leaves nothing behind in the instance - every block starts from what is on disk now."""
+    import os, tempfile, shutil
+    from autobean_refactor import editor as editor_lib
+    for recursive in (True, False):
+        for first in ('raises', 'completes-then-restored'):
+            tmp = tempfile.mkdtemp(prefix='verif-c16-reuse-')
+            cwd = os.getcwd()
+            rep = {'probe': 'reuse', 'recursive': recursive, 'first': first}
+            try:
+                os.makedirs(os.path.join(tmp, 'sub'))
+                files0 = {'main.bean': b'include "sub/a.bean"\n2000-01-01 open Assets:A\n', os.path.join('sub', 'a.bean'): b'2000-01-02 open Assets:B\r\n'}
+                for k, v in files0.items():
+                    with open(os.path.join(tmp, k), 'wb') as f:
+                        f.write(v)
+                os.chdir(tmp)
+                ed = editor_lib.Editor()
+                target = 'main.bean' if recursive else os.path.join('sub', 'a.bean')
+                opener = (lambda: ed.edit_file_recursive(target)) if recursive else (lambda: ed.edit_file(target))
+
+                def models_of(x):
+                    return list(x.values()) if recursive else [x]
+                try:
+                    with opener() as x:
+                        for m in models_of(x):
+                            m.raw_directives[-1].account = 'Assets:Edited'
+                        if first == 'raises':
+                            raise _Boom()
+                except _Boom:
+                    pass
+                if first == 'raises':
+                    for k, v in files0.items():
+                        if open(os.path.join(tmp, k), 'rb').read() != v:
+                            ctx.oracle_fail('C16:raised-but-written:reuse', f'{k} changed although the block raised', rep)
+                else:
+                    for k, v in files0.items():      # put the old content back behind the editor's back
+                        with open(os.path.join(tmp, k), 'wb') as f:
+                            f.write(v)
+                with opener() as x:                  # an ordinary block that edits nothing
+                    for m in models_of(x):
+                        got = pr(m)
+                        if 'Assets:Edited' in got:
+                            ctx.oracle_fail('C16:entry-model-is-not-the-file:reuse', 'the model handed out at entry carries the edits of an earlier block, not the content of the file', rep)
+                for k, v in files0.items():
+                    if open(os.path.join(tmp, k), 'rb').read() != v:
+                        ctx.oracle_fail('C16:unchanged-model-rewritten:reuse', f'{k} was rewritten by a block that edited nothing (with the edits of an earlier block)', rep)
+                ctx.case(('reuse', recursive, first))
+            except Exception as e:
+                ctx.oracle_fail(f'C16:exception:reuse:{type(e).__name__}', repr(e)[:200], rep)
+            finally:
+                os.chdir(cwd)
+                shutil.rmtree(tmp, ignore_errors=True)
+
+
 def run(ctx):
     _rekey_probes(ctx)
+    _reuse_probes(ctx)
     _run_many(ctx, ctx.scale(150, 5000), with_model=ctx.extra.get('model_available', True))
 
 
@@ -919,10 +975,10 @@ def replay(ctx, data):
     spec = data.get('replay') or data.get('first_diverging_replay')
     if not spec:
         return False
-    if spec.get('probe') == 'rekey':
+    if spec.get('probe') in ('rekey', 'reuse'):
         import check
         c = check.Ctx('C16', 'quick', ctx.seed)
-        _rekey_probes(c)
+        (_rekey_probes if spec['probe'] == 'rekey' else _reuse_probes)(c)
         return not c.oracle_fails
     res = run_scenario(spec, want_line=False)
     _classify_unexpected(spec, res)
